@@ -51,6 +51,19 @@ package rapid
 //@ spec isInit(phase interop.LifecyclePhase) int = ite(phase == interop.LifecyclePhaseInit, 1, 0)
 //@ spec isInvoke(phase interop.LifecyclePhase) int = ite(phase == interop.LifecyclePhaseInvoke, 1, 0)
 
+// C09 / C07: the map of extensions awaiting their exit is written by the reset/shutdown goroutine (shutdownAgents) and read by
+// the events watcher (handleProcessExit) at the same time: an unsynchronised Go map dies with "fatal error: concurrent map read and
+// map write", which no recover catches. It belongs to the mutex of the shutdown context.
+//@ monitor shutdownContext s
+//@   lock s.runtimeDomainExitedMutex
+//@   protects agentsAwaitingExit
+
+// the events watcher's handler of one exit: looks the extension up among those awaiting their exit, closes the exit channel
+//@ event ExitChannelClosedFor = call rapid.(*shutdownContext).getExitedChannel
+//@ func (*shutdownContext).handleProcessExit
+//@   requires s != nil && termination.Name != nil
+//@   ensures [the-exit-channel-of-that-process-is-looked-up] delta(ExitChannelClosedFor) == 1 && lastarg(ExitChannelClosedFor, 1) == old(deref(termination.Name))
+
 // C05 / C08: the per-generation state of the rapid context (initDone) belongs to the handler mutex: init, invoke and reset
 // handling read and write it with handlerExecutionMutex held, so that an invocation queued behind a reset sees either the old
 // generation (and is cancelled with it) or a completely cleared context
